@@ -2,17 +2,17 @@
 Helper lemmas and the proofs behind Props/C06.lean.
 -/
 import Strophe.Model.SendQueue
-
 namespace Strophe.Lemmas.SendQueue
 open Strophe Strophe.SendQueue
 
 /-- number of USER elements -/
 def userCount (q : List Elem) : Nat := (q.filter fun e => e.owner = .user).length
-
 /-- number of USER elements the write loop has not touched yet -/
 def notStarted (q : List Elem) : Nat := (q.filter fun e => e.owner = .user && !e.wip).length
 
-/-- the structural invariant of the native queue -/
+/-- the structural invariant of the native queue (the last three fields were added to make it
+    inductive: a link points to an older element, only library `<r/>` elements carry a link, and
+    an element the write loop has not touched has nothing written) -/
 structure Inv (s : St) : Prop where
   len_eq : s.len = s.queue.length
   userLen_eq : s.userLen = userCount s.queue
@@ -22,15 +22,440 @@ structure Inv (s : St) : Prop where
   uids_nodup : (s.queue.map (·.uid)).Nodup
   link_prev : ∀ i e, s.queue[i]? = some e → ∀ u, e.link = some u →
       (∀ j e', s.queue[j]? = some e' → e'.uid = u → j + 1 = i)
+  link_lt : ∀ e ∈ s.queue, ∀ u, e.link = some u → u < e.uid
+  link_owner : ∀ e ∈ s.queue, ∀ u, e.link = some u → e.owner = .smStrophe
+  fresh_written : ∀ e ∈ s.queue, e.wip = false → e.written = 0
 
 theorem inv_init : Inv ({} : St) := by
-  sorry
+  constructor <;> simp [userCount]
+
+theorem Inv.of_eq {s s' : St} (h : Inv s) (hq : s'.queue = s.queue) (hl : s'.len = s.len)
+    (hu : s'.userLen = s.userLen) (hn : s'.nextUid = s.nextUid) : Inv s' := by
+  obtain ⟨h1, h2, h3, h4, h5, h6, h7, h8, h9, h10⟩ := h
+  constructor <;> simp only [hq, hl, hu, hn] <;> assumption
+
+theorem idx_unique {q : List Elem} (h : (q.map (·.uid)).Nodup) {j k : Nat} {a b : Elem}
+    (ha : q[j]? = some a) (hb : q[k]? = some b) (hab : a.uid = b.uid) : j = k := by
+  have hj : j < (q.map (·.uid)).length := by
+    have := (List.getElem?_eq_some_iff.1 ha).1; simpa using this
+  apply (List.getElem?_inj hj h).1
+  simp [List.getElem?_map, ha, hb, hab]
+
+theorem mem_tail_of_mem_tail_append {α} (pre : List α) (e : α) (tl : List α) (x : α) (h : x ∈ tl) :
+    x ∈ (pre ++ e :: tl).tail := by
+  cases pre with
+  | nil => simpa using h
+  | cons a p => simp [h]
+
+theorem userCount_append (a b : List Elem) : userCount (a ++ b) = userCount a + userCount b := by
+  simp [userCount]
+
+theorem push_inv (s : St) (o : Owner) (d : Bytes) (l : Option Nat) (h : Inv s)
+    (hl : ∀ u, l = some u → o = .smStrophe ∧ ∃ pre e, s.queue = pre ++ [e] ∧ e.uid = u) :
+    Inv (push s o d l) := by
+  obtain ⟨h1, h2, h3, h4, h5, h6, h7, h8, h9, h10⟩ := h
+  constructor
+  · simp [push, h1]
+  · simp only [push, userCount_append, h2]
+    by_cases ho : o = .user <;> simp [userCount, ho]
+  · simp only [push, List.mem_append, List.mem_singleton]
+    rintro e (he | rfl)
+    · exact h3 e he
+    · simp
+  · simp only [push]
+    intro e he
+    cases hq : s.queue with
+    | nil => simp [hq] at he
+    | cons a tl =>
+      simp only [hq, List.cons_append, List.tail_cons, List.mem_append, List.mem_singleton] at he
+      rcases he with he | rfl
+      · exact h4 e (by simp [hq, he])
+      · simp
+  · simp only [push, List.mem_append, List.mem_singleton]
+    rintro e (he | rfl)
+    · have := h5 e he; omega
+    · simp
+  · simp only [push, List.map_append, List.map_cons, List.map_nil]
+    rw [List.nodup_append]
+    refine ⟨h6, by simp, ?_⟩
+    intro a ha b hb
+    simp only [List.mem_map] at ha
+    obtain ⟨e, he, rfl⟩ := ha
+    simp only [List.mem_singleton] at hb
+    have := h5 e he
+    omega
+  · simp only [push]
+    intro i e hi u hu j e' hj hju
+    rw [List.getElem?_append] at hi hj
+    split at hi
+    · -- old element
+      have he : e ∈ s.queue := List.mem_of_getElem? hi
+      split at hj
+      · exact h7 i e hi u hu j e' hj hju
+      · simp only [List.getElem?_singleton] at hj
+        split at hj
+        · simp at hj; subst hj
+          simp at hju
+          have := h8 e he u hu
+          have := h5 e he
+          omega
+        · simp at hj
+    · simp only [List.getElem?_singleton] at hi
+      split at hi
+      · simp at hi; subst hi
+        simp at hu
+        obtain ⟨_, pre, e0, hq, hu0⟩ := hl u hu
+        split at hj
+        · have h0 : s.queue[pre.length]? = some e0 := by simp [hq]
+          have := idx_unique h6 hj h0 (by omega)
+          have hlen : s.queue.length = pre.length + 1 := by simp [hq]
+          omega
+        · simp only [List.getElem?_singleton] at hj
+          split at hj
+          · simp at hj; subst hj; simp at hju
+            have : e0 ∈ s.queue := by simp [hq]
+            have := h5 e0 this
+            omega
+          · simp at hj
+      · simp at hi
+  · simp only [push, List.mem_append, List.mem_singleton]
+    rintro e (he | rfl) u hu
+    · exact h8 e he u hu
+    · simp at hu
+      obtain ⟨_, pre, e0, hq, hu0⟩ := hl u hu
+      have : e0 ∈ s.queue := by simp [hq]
+      have := h5 e0 this
+      simp; omega
+  · simp only [push, List.mem_append, List.mem_singleton]
+    rintro e (he | rfl) u hu
+    · exact h9 e he u hu
+    · simp at hu
+      exact (hl u hu).1
+  · simp only [push, List.mem_append, List.mem_singleton]
+    rintro e (he | rfl) hw
+    · exact h10 e he hw
+    · rfl
+
+theorem sendRaw_inv (s : St) (o : Owner) (d : Bytes) (h : Inv s) : Inv (sendRaw s o d) := by
+  unfold sendRaw
+  split
+  · exact h
+  · dsimp only
+    have h1 : Inv (push s o d none) := push_inv s o d none h (by simp)
+    split
+    · apply push_inv
+      · exact h1.of_eq rfl rfl rfl rfl
+      · intro u hu
+        simp at hu
+        subst hu
+        exact ⟨rfl, s.queue, _, rfl, rfl⟩
+    · exact h1
+
+
+theorem userCount_eraseIdx (q : List Elem) (i : Nat) (e : Elem) (h : q[i]? = some e) :
+    userCount (q.eraseIdx i) + (if e.owner = .user then 1 else 0) = userCount q := by
+  induction q generalizing i with
+  | nil => simp at h
+  | cons a tl ih =>
+    cases i with
+    | zero =>
+      simp at h; subst h
+      by_cases ho : a.owner = .user <;> simp [userCount, ho]
+    | succ i =>
+      simp at h
+      have := ih i h
+      by_cases ho : a.owner = .user <;> simp [userCount, ho] at this ⊢ <;> omega
+
+theorem mem_tail_eraseIdx {α} (q : List α) (i : Nat) (x : α) (h : x ∈ (q.eraseIdx i).tail) :
+    x ∈ q.tail := by
+  cases q with
+  | nil => simp at h
+  | cons a tl =>
+    cases i with
+    | zero => simp at h; exact List.mem_of_mem_tail h
+    | succ i => simp at h; exact List.mem_of_mem_eraseIdx h
+
+theorem unlinkAt_inv (s : St) (i : Nat) (h : Inv s) : Inv (unlinkAt s i) := by
+  unfold unlinkAt
+  split
+  · exact h
+  · rename_i e he
+    obtain ⟨h1, h2, h3, h4, h5, h6, h7, h8, h9, h10⟩ := h
+    have hi : i < s.queue.length := (List.getElem?_eq_some_iff.1 he).1
+    constructor
+    · simp only [List.length_eraseIdx, hi, if_true, h1]; omega
+    · have := userCount_eraseIdx s.queue i e he
+      simp only [h2]
+      split <;> simp_all <;> omega
+    · intro x hx; exact h3 x (List.mem_of_mem_eraseIdx hx)
+    · intro x hx; exact h4 x (mem_tail_eraseIdx _ _ _ hx)
+    · intro x hx; exact h5 x (List.mem_of_mem_eraseIdx hx)
+    · simp only
+      exact h6.sublist ((List.eraseIdx_sublist _ _).map _)
+    · simp only [List.getElem?_eraseIdx]
+      intro a x ha u hu b y hb hyu
+      split at ha <;> split at hb
+      · exact h7 _ _ ha u hu _ _ hb hyu
+      · have := h7 _ _ ha u hu _ _ hb hyu; omega
+      · have := h7 _ _ ha u hu _ _ hb hyu; omega
+      · have := h7 _ _ ha u hu _ _ hb hyu; omega
+    · intro x hx; exact h8 x (List.mem_of_mem_eraseIdx hx)
+    · intro x hx; exact h9 x (List.mem_of_mem_eraseIdx hx)
+    · intro x hx; exact h10 x (List.mem_of_mem_eraseIdx hx)
+
+/-- shape of the write loop's result -/
+theorem writeLoop_shape (q : List Elem) (sched : List Accept) :
+    ∃ pre suf, q = pre ++ suf ∧
+      (writeLoop q sched).done = pre.map (fun e => { e with wip := true }) ∧
+      ((suf = [] ∧ (writeLoop q sched).rest = []) ∨
+       ∃ e tl w, suf = e :: tl ∧
+          (writeLoop q sched).rest = { e with written := w, wip := true } :: tl ∧
+          e.written ≤ w ∧ (e.written ≤ e.data.length → w ≤ e.data.length)) := by
+  induction q generalizing sched with
+  | nil => exact ⟨[], [], rfl, rfl, Or.inl ⟨rfl, rfl⟩⟩
+  | cons e q ih =>
+    unfold writeLoop
+    dsimp only
+    split
+    · exact ⟨[], e :: q, rfl, rfl, Or.inr ⟨e, q, e.written, rfl, rfl, Nat.le_refl _, id⟩⟩
+    · exact ⟨[], e :: q, rfl, rfl, Or.inr ⟨e, q, e.written, rfl, rfl, Nat.le_refl _, id⟩⟩
+    · obtain ⟨pre, suf, h1, h2, h3⟩ := ih sched.tail
+      exact ⟨e :: pre, suf, by simp [h1], by simp [h2], h3⟩
+    · split
+      · obtain ⟨pre, suf, h1, h2, h3⟩ := ih sched.tail
+        exact ⟨e :: pre, suf, by simp [h1], by simp [h2], h3⟩
+      · rename_i n _ hn
+        exact ⟨[], e :: q, rfl, rfl, Or.inr ⟨e, q, e.written + n, rfl, rfl, by omega, by omega⟩⟩
+
+theorem retire_queue (s : St) (e) : (retire s e).queue = s.queue := by
+  unfold retire; dsimp only; split <;> rfl
+theorem retire_nextUid (s : St) (e) : (retire s e).nextUid = s.nextUid := by
+  unfold retire; dsimp only; split <;> rfl
+theorem retire_len (s : St) (e) : (retire s e).len = s.len - 1 := by
+  unfold retire; dsimp only; split <;> rfl
+theorem retire_userLen (s : St) (e) :
+    (retire s e).userLen = s.userLen - (if e.owner = .user then 1 else 0) := by
+  unfold retire; dsimp only
+  cases ho : e.owner <;> split <;> simp [Owner.userBit]
+theorem retire_connected (s : St) (e) : (retire s e).connected = s.connected := by
+  unfold retire; dsimp only; split <;> rfl
+
+theorem foldl_retire_queue (l : List Elem) (s : St) : (l.foldl retire s).queue = s.queue := by
+  induction l generalizing s with
+  | nil => rfl
+  | cons a l ih => simp [ih, retire_queue]
+theorem foldl_retire_nextUid (l : List Elem) (s : St) :
+    (l.foldl retire s).nextUid = s.nextUid := by
+  induction l generalizing s with
+  | nil => rfl
+  | cons a l ih => simp [ih, retire_nextUid]
+theorem foldl_retire_connected (l : List Elem) (s : St) :
+    (l.foldl retire s).connected = s.connected := by
+  induction l generalizing s with
+  | nil => rfl
+  | cons a l ih => simp [ih, retire_connected]
+theorem foldl_retire_len (l : List Elem) (s : St) :
+    (l.foldl retire s).len = s.len - l.length := by
+  induction l generalizing s with
+  | nil => simp
+  | cons a l ih => simp [ih, retire_len]; omega
+theorem foldl_retire_userLen (l : List Elem) (s : St) :
+    (l.foldl retire s).userLen = s.userLen - userCount l := by
+  induction l generalizing s with
+  | nil => simp [userCount]
+  | cons a l ih =>
+    simp only [List.foldl_cons, ih, retire_userLen]
+    by_cases ho : a.owner = .user <;> simp [userCount, ho] <;> omega
+
+theorem userCount_map_wip (l : List Elem) :
+    userCount (l.map fun e => { e with wip := true }) = userCount l := by
+  induction l with
+  | nil => rfl
+  | cons a l ih =>
+    simp only [userCount, List.map_cons, List.filter_cons] at ih ⊢
+    by_cases ho : a.owner = .user <;> simp [ho, ih]
+
+theorem runOnce_queue_inv (s : St) (sched : List Accept) (h : Inv s) :
+    Inv ((writeLoop s.queue sched).done.foldl retire
+      { s with queue := (writeLoop s.queue sched).rest }) := by
+  obtain ⟨pre, suf, hq, hdone, hrest⟩ := writeLoop_shape s.queue sched
+  generalize writeLoop s.queue sched = R at hdone hrest ⊢
+  obtain ⟨h1, h2, h3, h4, h5, h6, h7, h8, h9, h10⟩ := h
+  have hmem : ∀ x ∈ suf, x ∈ s.queue := by intro x hx; simp [hq, hx]
+  constructor
+  · rw [foldl_retire_len, foldl_retire_queue, hdone]
+    simp only [h1, hq, List.length_append, List.length_map]
+    rcases hrest with ⟨rfl, hr⟩ | ⟨e, tl, w, rfl, hr, _⟩ <;> simp [hr] <;> omega
+  · rw [foldl_retire_userLen, foldl_retire_queue, hdone, userCount_map_wip]
+    simp only [h2, hq, userCount_append]
+    rcases hrest with ⟨rfl, hr⟩ | ⟨e, tl, w, rfl, hr, _⟩
+    · simp [hr, userCount]
+    · simp only [hr]
+      have : userCount ({ e with written := w, wip := true } :: tl) = userCount (e :: tl) := by
+        by_cases ho : e.owner = .user <;> simp [userCount, ho]
+      rw [this]; omega
+  · rw [foldl_retire_queue]
+    rcases hrest with ⟨rfl, hr⟩ | ⟨e, tl, w, rfl, hr, hw1, hw2⟩
+    · simp [hr]
+    · simp only [hr, List.mem_cons]
+      rintro x (rfl | hx)
+      · exact hw2 (h3 e (hmem e (by simp)))
+      · exact h3 x (hmem x (by simp [hx]))
+  · rw [foldl_retire_queue]
+    rcases hrest with ⟨rfl, hr⟩ | ⟨e, tl, w, rfl, hr, hw1, hw2⟩
+    · simp [hr]
+    · simp only [hr, List.tail_cons]
+      intro x hx
+      exact h4 x (by rw [hq]; exact mem_tail_of_mem_tail_append _ _ _ _ hx)
+  · rw [foldl_retire_queue, foldl_retire_nextUid]
+    rcases hrest with ⟨rfl, hr⟩ | ⟨e, tl, w, rfl, hr, hw1, hw2⟩
+    · simp [hr]
+    · simp only [hr, List.mem_cons]
+      rintro x (rfl | hx)
+      · exact h5 e (hmem e (by simp))
+      · exact h5 x (hmem x (by simp [hx]))
+  · rw [foldl_retire_queue]
+    rcases hrest with ⟨rfl, hr⟩ | ⟨e, tl, w, rfl, hr, hw1, hw2⟩
+    · simp [hr]
+    · simp only [hr]
+      rw [hq, List.map_append, List.nodup_append] at h6
+      exact h6.2.1
+  · rw [foldl_retire_queue]
+    rcases hrest with ⟨rfl, hr⟩ | ⟨e, tl, w, rfl, hr, hw1, hw2⟩
+    · simp [hr]
+    · simp only [hr]
+      intro a x ha u hu b y hb hyu
+      -- transfer to indices in the old queue
+      have key : ∀ (c : Nat) (z : Elem),
+          ({ e with written := w, wip := true } :: tl)[c]? = some z →
+          ∃ z', s.queue[pre.length + c]? = some z' ∧ z'.uid = z.uid ∧ z'.link = z.link := by
+        intro c z hc
+        cases c with
+        | zero => simp at hc; subst hc; exact ⟨e, by simp [hq], rfl, rfl⟩
+        | succ c =>
+          simp at hc
+          refine ⟨z, ?_, rfl, rfl⟩
+          rw [hq, List.getElem?_append_right (by omega)]
+          simp [hc]
+      obtain ⟨x', hx1, hx2, hx3⟩ := key a x ha
+      obtain ⟨y', hy1, hy2, hy3⟩ := key b y hb
+      have := h7 _ _ hx1 u (by rw [hx3]; exact hu) _ _ hy1 (by rw [hy2]; exact hyu)
+      omega
+  · rw [foldl_retire_queue]
+    rcases hrest with ⟨rfl, hr⟩ | ⟨e, tl, w, rfl, hr, hw1, hw2⟩
+    · simp [hr]
+    · simp only [hr, List.mem_cons]
+      rintro x (rfl | hx)
+      · exact h8 e (hmem e (by simp))
+      · exact h8 x (hmem x (by simp [hx]))
+  · rw [foldl_retire_queue]
+    rcases hrest with ⟨rfl, hr⟩ | ⟨e, tl, w, rfl, hr, hw1, hw2⟩
+    · simp [hr]
+    · simp only [hr, List.mem_cons]
+      rintro x (rfl | hx)
+      · exact h9 e (hmem e (by simp))
+      · exact h9 x (hmem x (by simp [hx]))
+  · rw [foldl_retire_queue]
+    rcases hrest with ⟨rfl, hr⟩ | ⟨e, tl, w, rfl, hr, hw1, hw2⟩
+    · simp [hr]
+    · simp only [hr, List.mem_cons]
+      rintro x (rfl | hx)
+      · simp
+      · exact h10 x (hmem x (by simp [hx]))
+
+theorem runOnce_inv (s : St) (sched : List Accept) (h : Inv s) : Inv (runOnce s sched).1 := by
+  unfold runOnce
+  split
+  · exact h
+  · dsimp only
+    have := runOnce_queue_inv s sched h
+    split
+    · exact this.of_eq rfl rfl rfl rfl
+    · exact this
+
+
+/-- the state after removing a linked `<r/>` (if any) behind index `t` -/
+def dropS1 (s : St) (t : Nat) (e : Elem) : St :=
+  match s.queue[t + 1]? with
+  | some nx => if nx.link = some e.uid then { unlinkAt s (t + 1) with rSent := false } else s
+  | none => s
+
+def dropT0 (s : St) (w : Which) : Option Nat :=
+  match w with
+  | .oldest => some 0
+  | .youngest => lastUserUpTo s.queue (s.queue.length - 1)
+
+def dropT1 (s : St) (head : Elem) (t0 : Nat) : Nat :=
+  if t0 = 0 && head.wip && !(!s.connected) then 1 else t0
+
+theorem dropElement_eq (s : St) (w : Which) :
+    dropElement s w = (s, none) ∨
+    ∃ head tl t0 t e, s.queue = head :: tl ∧
+      ¬ (tl.isEmpty && ((head.wip && !(!s.connected)) || head.owner ≠ .user)) = true ∧
+      dropT0 s w = some t0 ∧
+      firstUserFrom s.queue (dropT1 s head t0) = some t ∧ s.queue[t]? = some e ∧
+      dropElement s w = (unlinkAt (dropS1 s t e) t, some e.data) := by
+  unfold dropElement
+  dsimp only
+  split
+  · left; rfl
+  · rename_i head tl hq
+    split
+    · left; rfl
+    · rename_i hne
+      split
+      · left; rfl
+      · rename_i t0 ht0
+        split
+        · left; rfl
+        · rename_i t ht
+          split
+          · left; rfl
+          · rename_i e he
+            right
+            exact ⟨head, tl, t0, t, e, hq, hne, ht0, ht, he, rfl⟩
+
+
+theorem dropS1_inv (s : St) (t : Nat) (e : Elem) (h : Inv s) : Inv (dropS1 s t e) := by
+  unfold dropS1
+  split
+  · split
+    · exact (unlinkAt_inv s (t + 1) h).of_eq rfl rfl rfl rfl
+    · exact h
+  · exact h
+
+theorem dropElement_inv (s : St) (w : Which) (h : Inv s) : Inv (dropElement s w).1 := by
+  rcases dropElement_eq s w with h1 | ⟨head, tl, t0, t, e, _, _, _, _, _, h1⟩
+  · rw [h1]; exact h
+  · rw [h1]; exact unlinkAt_inv _ _ (dropS1_inv s t e h)
 
 theorem inv_step (s : St) (op : Op) (h : Inv s) : Inv (step s op).1 := by
-  sorry
+  cases op with
+  | send o d => exact sendRaw_inv s o d h
+  | run sched => exact runOnce_inv s sched h
+  | drop w => exact dropElement_inv s w h
+  | setSm b => exact h.of_eq rfl rfl rfl rfl
+  | disc => exact h.of_eq rfl rfl rfl rfl
+
+theorem stepH_st (h : Hist) (op : Op) : (stepH h op).st = (step h.st op).1 := by
+  cases op <;> simp [stepH, step]
+
+theorem runH_snoc (ops : List Op) (op : Op) : runH (ops ++ [op]) = stepH (runH ops) op := by
+  simp [runH]
+
+theorem foldl_stepH_ind (P : Hist → Prop) (hstep : ∀ h op, P h → P (stepH h op))
+    (ops : List Op) (h : Hist) (h0 : P h) : P (ops.foldl stepH h) := by
+  induction ops generalizing h with
+  | nil => exact h0
+  | cons op ops ih => exact ih _ (hstep h op h0)
 
 theorem inv_reachable (ops : List Op) : Inv (runH ops).st := by
-  sorry
+  apply foldl_stepH_ind (fun h => Inv h.st)
+  · intro h op ih; rw [stepH_st]; exact inv_step _ _ ih
+  · exact inv_init
+
+theorem pending_append (a b : List Elem) : pending (a ++ b) = pending a ++ pending b := by
+  simp [pending]
 
 /-- `send`: refused when not connected; otherwise the text (followed by a linked `<r/>` when stream
     management asks for one) is appended, nothing else changes and nothing is written -/
@@ -39,54 +464,1183 @@ theorem send_appends (s : St) (o : Owner) (d : Bytes) :
     (s.connected → ∃ extra, (extra = [] ∨ extra = Gen.reqAck) ∧
         pending (sendRaw s o d).queue = pending s.queue ++ d ++ extra ∧
         ∃ added, (sendRaw s o d).queue = s.queue ++ added) := by
-  sorry
+  constructor
+  · intro hc; unfold sendRaw; simp [hc]
+  · intro hc
+    unfold sendRaw
+    simp only [hc, Bool.not_true, Bool.false_eq_true, if_false]
+    split
+    · refine ⟨Gen.reqAck, Or.inr rfl, ?_,
+        [{ uid := s.nextUid, data := d, owner := o },
+         { uid := s.nextUid + 1, data := Gen.reqAck, owner := .smStrophe, link := some s.nextUid }], ?_⟩
+      · simp [push, pending, Elem.rest]
+      · simp [push]
+    · refine ⟨[], Or.inl rfl, ?_, _, rfl⟩
+      simp [push, pending, Elem.rest]
+
+theorem writeLoop_fifo (q : List Elem) (sched : List Accept)
+    (h : ∀ e ∈ q, e.written ≤ e.data.length) :
+    (writeLoop q sched).wire ++ pending (writeLoop q sched).rest = pending q := by
+  induction q generalizing sched with
+  | nil => simp [writeLoop, pending]
+  | cons e q ih =>
+    have ih' := ih sched.tail (fun x hx => h x (by simp [hx]))
+    unfold writeLoop
+    dsimp only
+    split
+    · simp [pending, Elem.rest]
+    · simp [pending, Elem.rest]
+    · simp only [List.append_assoc, ih']
+      simp [pending]
+    · split
+      · simp only [List.append_assoc, ih']
+        simp [pending]
+      · simp only [pending, Elem.rest, List.map_cons, List.flatten_cons]
+        rw [← List.append_assoc]
+        congr 1
+        rw [← List.drop_drop]
+        exact List.take_append_drop _ _
+
+theorem runOnce_connected (s : St) (sched : List Accept) (hc : s.connected = true) :
+    (runOnce s sched).2 = (writeLoop s.queue sched).wire ∧
+    (runOnce s sched).1.queue = (writeLoop s.queue sched).rest := by
+  unfold runOnce
+  rw [if_neg (by simp [hc])]
+  dsimp only
+  split <;> simp [disconnect, foldl_retire_queue]
 
 /-- the write loop neither loses, repeats nor reorders bytes, whatever the transport accepts -/
 theorem run_fifo (s : St) (sched : List Accept) (h : Inv s) :
     (runOnce s sched).2 ++ pending (runOnce s sched).1.queue = pending s.queue ∨
     (¬ s.connected ∧ runOnce s sched = (s, [])) := by
-  sorry
+  by_cases hc : s.connected
+  · left
+    rw [(runOnce_connected s sched hc).1, (runOnce_connected s sched hc).2]
+    exact writeLoop_fifo _ _ h.written_le
+  · right
+    unfold runOnce
+    simp [hc]
+
+theorem len_counts_not_started (s : St) (h : Inv s) : queueLen s = notStarted s.queue := by
+  unfold queueLen
+  have h2 := h.userLen_eq
+  have h4 := h.tail_fresh
+  cases hq : s.queue with
+  | nil => simp [hq, userCount, notStarted] at h2 ⊢; exact h2
+  | cons e tl =>
+    simp only [hq, List.tail_cons] at h2 h4 ⊢
+    have htl : (tl.filter fun e => e.owner = .user && !e.wip) = tl.filter fun e => e.owner = .user := by
+      apply List.filter_congr
+      intro x hx
+      simp [(h4 x hx).2]
+    simp only [notStarted, userCount, List.filter_cons, htl] at h2 ⊢
+    by_cases ho : e.owner = .user <;> cases hw : e.wip <;> simp [ho] at h2 ⊢ <;> omega
+
+
+
+theorem lastUserUpTo_some (q : List Elem) (i k : Nat) (h : lastUserUpTo q i = some k) :
+    k ≤ i ∧ (∃ e, q[k]? = some e ∧ e.owner = .user) ∧
+      ∀ j e', k < j → j ≤ i → q[j]? = some e' → e'.owner ≠ .user := by
+  induction i with
+  | zero =>
+    unfold lastUserUpTo at h
+    split at h
+    · split at h
+      · simp at h; subst h; refine ⟨Nat.le_refl _, ⟨_, by assumption, by assumption⟩, ?_⟩
+        intro j e' h1 h2; omega
+      · simp at h
+    · simp at h
+  | succ i ih =>
+    unfold lastUserUpTo at h
+    split at h
+    · split at h
+      · simp at h; subst h; refine ⟨Nat.le_refl _, ⟨_, by assumption, by assumption⟩, ?_⟩
+        intro j e' h1 h2; omega
+      · obtain ⟨h1, h2, h3⟩ := ih h
+        refine ⟨by omega, h2, ?_⟩
+        intro j e' hj1 hj2 hj3
+        by_cases hj : j = i + 1
+        · subst hj; simp_all
+        · exact h3 j e' hj1 (by omega) hj3
+    · obtain ⟨h1, h2, h3⟩ := ih h
+      refine ⟨by omega, h2, ?_⟩
+      intro j e' hj1 hj2 hj3
+      by_cases hj : j = i + 1
+      · subst hj; simp_all
+      · exact h3 j e' hj1 (by omega) hj3
+
+theorem lastUserUpTo_none (q : List Elem) (i : Nat) (h : lastUserUpTo q i = none) :
+    ∀ j e', j ≤ i → q[j]? = some e' → e'.owner ≠ .user := by
+  induction i with
+  | zero =>
+    unfold lastUserUpTo at h
+    intro j e' hj he
+    have : j = 0 := by omega
+    subst this
+    simp [he] at h
+    exact h
+  | succ i ih =>
+    unfold lastUserUpTo at h
+    intro j e' hj he
+    by_cases hj' : j = i + 1
+    · subst hj'
+      simp only [he] at h
+      split at h
+      · simp at h
+      · assumption
+    · split at h
+      · split at h
+        · simp at h
+        · exact ih h j e' (by omega) he
+      · exact ih h j e' (by omega) he
+
+theorem firstUserFrom_some (q : List Elem) (i k : Nat) (h : firstUserFrom q i = some k) :
+    i ≤ k ∧ (∃ e, q[k]? = some e ∧ e.owner = .user) ∧
+      ∀ j e', i ≤ j → j < k → q[j]? = some e' → e'.owner ≠ .user := by
+  unfold firstUserFrom at h
+  simp only [Option.map_eq_some_iff] at h
+  obtain ⟨a, ha, rfl⟩ := h
+  rw [List.findIdx?_eq_some_iff_getElem] at ha
+  obtain ⟨hlt, hp, hnot⟩ := ha
+  simp only [List.length_drop] at hlt
+  refine ⟨by omega, ⟨(q.drop i)[a], ?_, by simpa using hp⟩, ?_⟩
+  · simp [List.getElem_drop, Nat.add_comm]
+  · intro j e' h1 h2 h3
+    have := hnot (j - i) (by omega)
+    simp only [List.getElem_drop] at this
+    have hj : i + (j - i) = j := by omega
+    simp only [hj] at this
+    have h4 : j < q.length := by omega
+    rw [List.getElem?_eq_getElem h4] at h3
+    simp at h3
+    subst h3
+    simpa using this
+
+theorem firstUserFrom_none (q : List Elem) (i : Nat) (h : firstUserFrom q i = none) :
+    ∀ j e', i ≤ j → q[j]? = some e' → e'.owner ≠ .user := by
+  unfold firstUserFrom at h
+  simp only [Option.map_eq_none_iff] at h
+  rw [List.findIdx?_eq_none_iff] at h
+  intro j e' hj he
+  have : e' ∈ q.drop i := by
+    rw [List.mem_iff_getElem?]
+    exact ⟨j - i, by simp [List.getElem?_drop]; rw [← he]; congr 1; omega⟩
+  simpa using h e' this
+
+
+theorem unlinkAt_queue (s : St) (i : Nat) : (unlinkAt s i).queue = s.queue.eraseIdx i := by
+  unfold unlinkAt
+  split
+  · rename_i h
+    rw [List.eraseIdx_of_length_le]
+    simpa using h
+  · rfl
+
+theorem drop_queue (s : St) (t : Nat) (e : Elem) :
+    (unlinkAt (dropS1 s t e) t).queue = s.queue.eraseIdx t ∨
+    ∃ r, s.queue[t + 1]? = some r ∧ r.link = some e.uid ∧
+      (unlinkAt (dropS1 s t e) t).queue = (s.queue.eraseIdx (t + 1)).eraseIdx t := by
+  rw [unlinkAt_queue]
+  unfold dropS1
+  split
+  · rename_i nx hnx
+    split
+    · right
+      exact ⟨nx, hnx, by assumption, by simp [unlinkAt_queue]⟩
+    · left; rfl
+  · left; rfl
+
+theorem mem_tail_of_getElem? {α} {q : List α} {i : Nat} {x : α} (h : q[i + 1]? = some x) :
+    x ∈ q.tail := by
+  cases q with
+  | nil => simp at h
+  | cons a tl => simp at h; exact List.mem_of_getElem? h
 
 /-- what a successful drop does -/
 theorem drop_exact (s : St) (w : Which) (t : Bytes) (s' : St) (h : Inv s)
     (hd : dropElement s w = (s', some t)) :
     ∃ i e, s.queue[i]? = some e ∧ e.owner = .user ∧ e.data = t ∧
       (s.connected → e.written = 0 ∧ e.wip = false) ∧
-      -- it is the oldest / youngest droppable user element
       (∀ j e', s.queue[j]? = some e' → e'.owner = .user → (s.connected → e'.wip = false) →
           (w = .oldest → i ≤ j) ∧ (w = .youngest → j ≤ i)) ∧
-      -- exactly it, and an `<r/>` linked to it, leave the queue
       (s'.queue = s.queue.eraseIdx i ∨
        (∃ r, s.queue[i + 1]? = some r ∧ r.link = some e.uid ∧ r.owner = .smStrophe ∧
              s'.queue = (s.queue.eraseIdx (i + 1)).eraseIdx i)) := by
-  sorry
+  rcases dropElement_eq s w with h1 | ⟨head, tl, t0, i, e, hq, hne, ht0, hft, he, h1⟩
+  · rw [h1] at hd; simp at hd
+  · rw [h1] at hd
+    simp only [Prod.mk.injEq, Option.some.injEq] at hd
+    obtain ⟨hs', hdata⟩ := hd
+    obtain ⟨hf1, ⟨e2, he2, hu2⟩, hf3⟩ := firstUserFrom_some _ _ _ hft
+    rw [he] at he2; simp at he2; subst he2
+    have hhead : s.queue[0]? = some head := by simp [hq]
+    have hT1 : dropT1 s head t0 = if t0 = 0 ∧ head.wip = true ∧ s.connected = true then 1 else t0 := by
+      simp [dropT1, and_assoc]
+    refine ⟨i, e, he, hu2, hdata, ?_, ?_, ?_⟩
+    · intro hc
+      cases i with
+      | zero =>
+        rw [hhead] at he; simp at he; subst he
+        have hw : head.wip = false := by
+          rw [hT1] at hf1
+          split at hf1
+          · omega
+          · rename_i hcond
+            have : t0 = 0 := by omega
+            cases hw : head.wip
+            · rfl
+            · exact absurd ⟨this, hw, hc⟩ hcond
+        exact ⟨h.fresh_written head (by simp [hq]) hw, hw⟩
+      | succ i => exact h.tail_fresh e (mem_tail_of_getElem? he)
+    · intro j e' hj hu hw
+      constructor
+      · intro hwo
+        subst hwo
+        simp [dropT0] at ht0
+        subst ht0
+        rw [hT1] at hf1 hf3
+        by_cases hji : i ≤ j
+        · exact hji
+        · exfalso
+          by_cases hcond : (0 = 0 ∧ head.wip = true ∧ s.connected = true)
+          · rw [if_pos hcond] at hf1 hf3
+            by_cases hj0 : j = 0
+            · subst hj0
+              rw [hhead] at hj; simp at hj; subst hj
+              have := hw hcond.2.2
+              simp [hcond.2.1] at this
+            · exact hf3 j e' (by omega) (by omega) hj hu
+          · rw [if_neg hcond] at hf1 hf3
+            exact hf3 j e' (by omega) (by omega) hj hu
+      · intro hwy
+        subst hwy
+        simp only [dropT0] at ht0
+        obtain ⟨hl1, _, hl3⟩ := lastUserUpTo_some _ _ _ ht0
+        have hjl : j < s.queue.length := (List.getElem?_eq_some_iff.1 hj).1
+        have : t0 ≤ i := by
+          rw [hT1] at hf1
+          split at hf1 <;> omega
+        by_cases hji : j ≤ i
+        · exact hji
+        · exact absurd hu (hl3 j e' (by omega) (by omega) hj)
+    · subst hs'
+      rcases drop_queue s i e with hq' | ⟨r, hr1, hr2, hr3⟩
+      · left; exact hq'
+      · right
+        exact ⟨r, hr1, hr2, h.link_owner r (List.mem_of_getElem? hr1) _ hr2, hr3⟩
 
 /-- a refused drop leaves everything as it was, and is refused only when no user element is
     droppable -/
 theorem drop_none (s : St) (w : Which) (s' : St) (h : Inv s)
     (hd : dropElement s w = (s', none)) :
     s' = s ∧ ∀ e ∈ s.queue, e.owner = .user → s.connected ∧ e.wip = true := by
-  sorry
+  have _ := h
+  unfold dropElement at hd
+  dsimp only at hd
+  split at hd
+  · rename_i hq
+    simp at hd
+    exact ⟨hd.symm, by simp [hq]⟩
+  · rename_i head tl hq
+    have hhead : s.queue[0]? = some head := by simp [hq]
+    split at hd
+    · rename_i hcond
+      simp at hd
+      refine ⟨hd.symm, ?_⟩
+      simp only [Bool.and_eq_true, List.isEmpty_iff, Bool.or_eq_true, Bool.not_not,
+        decide_eq_true_eq] at hcond
+      obtain ⟨rfl, hc⟩ := hcond
+      intro e he hu
+      simp [hq] at he
+      subst he
+      rcases hc with hc | hc
+      · exact ⟨hc.2, hc.1⟩
+      · exact absurd hu (by simpa using hc)
+    · split at hd
+      · rename_i ht0
+        simp at hd
+        refine ⟨hd.symm, ?_⟩
+        intro e he hu
+        exfalso
+        cases w with
+        | oldest => simp at ht0
+        | youngest =>
+          simp only at ht0
+          obtain ⟨j, hj⟩ := List.mem_iff_getElem?.1 he
+          have hjl : j < s.queue.length := (List.getElem?_eq_some_iff.1 hj).1
+          exact lastUserUpTo_none _ _ ht0 j e (by omega) hj hu
+      · rename_i t0 ht0
+        split at hd
+        · rename_i hft
+          simp at hd
+          refine ⟨hd.symm, ?_⟩
+          intro e he hu
+          obtain ⟨j, hj⟩ := List.mem_iff_getElem?.1 he
+          have hnone := firstUserFrom_none _ _ hft
+          split at hnone
+          · rename_i hcond
+            simp only [Bool.and_eq_true, decide_eq_true_eq, Bool.not_not] at hcond
+            by_cases hj0 : j = 0
+            · subst hj0
+              rw [hhead] at hj; simp at hj; subst hj
+              exact ⟨hcond.2, hcond.1.2⟩
+            · exact absurd hu (hnone j e (by omega) hj)
+          · exfalso
+            cases w with
+            | oldest =>
+              simp at ht0; subst ht0
+              exact hnone j e (by omega) hj hu
+            | youngest =>
+              simp only at ht0
+              obtain ⟨_, ⟨e2, he2, hu2⟩, _⟩ := lastUserUpTo_some _ _ _ ht0
+              exact hnone t0 e2 (Nat.le_refl _) he2 hu2
+        · rename_i t hft
+          split at hd
+          · rename_i hnone
+            obtain ⟨_, ⟨e2, he2, _⟩, _⟩ := firstUserFrom_some _ _ _ hft
+            rw [he2] at hnone; simp at hnone
+          · simp at hd
 
-theorem len_counts_not_started (s : St) (h : Inv s) : queueLen s = notStarted s.queue := by
-  sorry
+
+/-! ### disconnect notifications -/
+
+theorem sendRaw_disc (s : St) (o d) : (sendRaw s o d).disconnects = s.disconnects := by
+  unfold sendRaw
+  split
+  · rfl
+  · dsimp only
+    split <;> rfl
+
+theorem retire_disc (s : St) (e) : (retire s e).disconnects = s.disconnects := by
+  unfold retire
+  dsimp only
+  split <;> rfl
+
+theorem foldl_retire_disc (l : List Elem) (s : St)  : (l.foldl retire s).disconnects = s.disconnects := by
+  induction l generalizing s with
+  | nil => rfl
+  | cons a l ih => simp [List.foldl_cons, ih, retire_disc]
+
+theorem unlinkAt_disc (s : St) (i) : (unlinkAt s i).disconnects = s.disconnects := by
+  unfold unlinkAt
+  split <;> rfl
+
+theorem dropElement_disc (s : St) (w) : (dropElement s w).1.disconnects = s.disconnects := by
+  unfold dropElement
+  dsimp only
+  split
+  · rfl
+  · split
+    · rfl
+    · split
+      · rfl
+      · split
+        · rfl
+        · split
+          · rfl
+          · rw [unlinkAt_disc]
+            split
+            · split
+              · simp [unlinkAt_disc]
+              · rfl
+            · rfl
+
+theorem at_most_one_disconnect_per_op (s : St) (op : Op) :
+    (step s op).1.disconnects ≤ s.disconnects + 1 := by
+  cases op with
+  | send o d => simp [step, sendRaw_disc]
+  | run sched =>
+    simp only [step, runOnce]
+    split
+    · simp
+    · dsimp only
+      split <;> simp [disconnect, foldl_retire_disc]
+  | drop w => simp [step, dropElement_disc]
+  | setSm b => simp [step]
+  | disc => simp [step, disconnect]
+
+
+/-! ### the ghost-augmented history -/
+
+/-- concatenated texts of a ghost list -/
+def gflat (g : List (Nat × Bytes)) : Bytes := (g.map (·.2)).flatten
+
+def headWritten : List Elem → Bytes
+  | [] => []
+  | e :: _ => e.data.take e.written
+
+/-- `g` lists the elements of `q` in order, interleaved with entries whose text is empty -/
+def Match : List Elem → List (Nat × Bytes) → Prop
+  | q, [] => q = []
+  | q, p :: g => (p.2 = [] ∧ Match q g) ∨ (∃ e q', q = e :: q' ∧ e.uid = p.1 ∧ e.data = p.2 ∧ Match q' g)
+
+theorem gflat_append (a b) : gflat (a ++ b) = gflat a ++ gflat b := by simp [gflat]
+
+theorem gflat_empty (em : List (Nat × Bytes)) (h : ∀ p ∈ em, p.2 = []) : gflat em = [] := by
+  simp only [gflat, List.flatten_eq_nil_iff, List.mem_map]
+  rintro l ⟨p, hp, rfl⟩; exact h p hp
+
+theorem Match.of_parts (e : Elem) (q' : List Elem) (em g : List (Nat × Bytes))
+    (hem : ∀ p ∈ em, p.2 = []) (hm : Match q' g) :
+    Match (e :: q') (em ++ (e.uid, e.data) :: g) := by
+  induction em with
+  | nil => exact Or.inr ⟨e, q', rfl, rfl, rfl, hm⟩
+  | cons p em ih =>
+    exact Or.inl ⟨hem p (by simp), ih (fun x hx => hem x (by simp [hx]))⟩
+
+theorem Match.inv_cons {e : Elem} {q' : List Elem} {post : List (Nat × Bytes)}
+    (hm : Match (e :: q') post) :
+    ∃ em g, post = em ++ (e.uid, e.data) :: g ∧ (∀ p ∈ em, p.2 = []) ∧ Match q' g := by
+  induction post with
+  | nil => simp [Match] at hm
+  | cons p post ih =>
+    rcases hm with ⟨hp, hm⟩ | ⟨e1, q1, hq, hu, hd, hm⟩
+    · obtain ⟨em, g, h1, h2, h3⟩ := ih hm
+      refine ⟨p :: em, g, by simp [h1], ?_, h3⟩
+      intro x hx
+      simp at hx
+      rcases hx with rfl | hx
+      · exact hp
+      · exact h2 x hx
+    · simp at hq
+      obtain ⟨rfl, rfl⟩ := hq
+      refine ⟨[], post, ?_, by simp, hm⟩
+      cases p
+      simp at hu hd
+      simp [hu, hd]
+
+theorem Match.nil_empty {post : List (Nat × Bytes)} (hm : Match [] post) : ∀ p ∈ post, p.2 = [] := by
+  induction post with
+  | nil => simp
+  | cons p post ih =>
+    rcases hm with ⟨hp, hm⟩ | ⟨e1, q1, hq, _⟩
+    · intro x hx
+      simp at hx
+      rcases hx with rfl | hx
+      · exact hp
+      · exact ih hm x hx
+    · simp at hq
+
+theorem Match.of_empty {post : List (Nat × Bytes)} (h : ∀ p ∈ post, p.2 = []) : Match [] post := by
+  induction post with
+  | nil => rfl
+  | cons p post ih => exact Or.inl ⟨h p (by simp), ih (fun x hx => h x (by simp [hx]))⟩
+
+theorem Match.flat {q : List Elem} {post : List (Nat × Bytes)} (hm : Match q post) :
+    gflat post = (q.map (·.data)).flatten := by
+  induction q generalizing post with
+  | nil => simp [gflat_empty post hm.nil_empty]
+  | cons e q ih =>
+    obtain ⟨em, g, rfl, h2, h3⟩ := hm.inv_cons
+    rw [gflat_append, gflat_empty em h2]
+    simp [gflat] at ih ⊢
+    exact ih h3
+
+theorem Match.uids {q : List Elem} {post : List (Nat × Bytes)} (hm : Match q post) :
+    ∀ e ∈ q, e.uid ∈ post.map (·.1) := by
+  induction q generalizing post with
+  | nil => simp
+  | cons e q ih =>
+    obtain ⟨em, g, rfl, h2, h3⟩ := hm.inv_cons
+    intro x hx
+    simp at hx
+    rcases hx with rfl | hx
+    · simp
+    · have := ih h3 x hx
+      simp at this ⊢
+      right; right; exact this
+
+theorem Match.append {q : List Elem} {post : List (Nat × Bytes)} (hm : Match q post)
+    (new : List Elem) : Match (q ++ new) (post ++ new.map fun e => (e.uid, e.data)) := by
+  induction q generalizing post with
+  | nil =>
+    have hem := hm.nil_empty
+    clear hm
+    induction post with
+    | nil =>
+      simp
+      induction new with
+      | nil => rfl
+      | cons a new ih => exact Or.inr ⟨a, new, rfl, rfl, rfl, ih⟩
+    | cons p post ih =>
+      exact Or.inl ⟨hem p (by simp), ih (fun x hx => hem x (by simp [hx]))⟩
+  | cons e q ih =>
+    obtain ⟨em, g, rfl, h2, h3⟩ := hm.inv_cons
+    have := Match.of_parts e (q ++ new) em _ h2 (ih h3)
+    simpa using this
+
+theorem Match.head_congr {e e' : Elem} {q' : List Elem} {post : List (Nat × Bytes)}
+    (hm : Match (e :: q') post) (hu : e'.uid = e.uid) (hd : e'.data = e.data) :
+    Match (e' :: q') post := by
+  obtain ⟨em, g, rfl, h2, h3⟩ := hm.inv_cons
+  rw [← hu, ← hd]
+  exact Match.of_parts e' q' em g h2 h3
+
+theorem headWritten_fresh (l : List Elem) (h : ∀ e ∈ l, e.written = 0) : headWritten l = [] := by
+  cases l with
+  | nil => rfl
+  | cons a l => simp [headWritten, h a (by simp)]
+
+theorem pending_fresh (l : List Elem) (h : ∀ e ∈ l, e.written = 0) :
+    pending l = (l.map (·.data)).flatten := by
+  induction l with
+  | nil => rfl
+  | cons a l ih =>
+    simp only [pending, List.map_cons, List.flatten_cons] at ih ⊢
+    rw [ih (fun x hx => h x (by simp [hx]))]
+    simp [Elem.rest, h a (by simp)]
+
+theorem headWritten_pending (q : List Elem) (h : ∀ e ∈ q.tail, e.written = 0) :
+    headWritten q ++ pending q = (q.map (·.data)).flatten := by
+  cases q with
+  | nil => rfl
+  | cons e tl =>
+    have := pending_fresh tl h
+    simp only [pending] at this
+    simp only [headWritten, pending, Elem.rest, List.map_cons, List.flatten_cons, this]
+    rw [← List.append_assoc, List.take_append_drop]
+
+
+/-- the invariant of a history -/
+structure HInv (h : Hist) : Prop where
+  inv : Inv h.st
+  sm_lt : ∀ e ∈ h.st.smQueue, e.uid < h.st.nextUid
+  sm_disj : ∀ e ∈ h.st.smQueue, ∀ e' ∈ h.st.queue, e'.uid ≠ e.uid
+  g_lt : ∀ p ∈ h.ghost, p.1 < h.st.nextUid
+  g_nodup : (h.ghost.map (·.1)).Nodup
+  split : ∃ pre post, h.ghost = pre ++ post ∧ h.wire = gflat pre ++ headWritten h.st.queue ∧
+    Match h.st.queue post
+
+theorem HInv.fifo {h : Hist} (hi : HInv h) :
+    h.wire ++ pending h.st.queue = (h.ghost.map (·.2)).flatten := by
+  obtain ⟨pre, post, hg, hw, hm⟩ := hi.split
+  rw [hw, List.append_assoc, headWritten_pending _ (fun e he => (hi.inv.tail_fresh e he).1),
+    ← hm.flat, ← gflat_append, ← hg]
+  rfl
+
+theorem hinv_init : HInv {} := by
+  refine ⟨inv_init, by simp, by simp, by simp, by simp, [], [], rfl, rfl, rfl⟩
+
+/-- steps that only append fresh elements (send, setSm, disc) -/
+theorem hinv_append (h : Hist) (s' : St) (new : List Elem) (hi : HInv h) (hinv' : Inv s')
+    (hq : s'.queue = h.st.queue ++ new)
+    (hnew : ∀ e ∈ new, h.st.nextUid ≤ e.uid ∧ e.written = 0)
+    (hn : h.st.nextUid ≤ s'.nextUid) (hsm : s'.smQueue = h.st.smQueue) :
+    HInv { st := s', wire := h.wire,
+           ghost := h.ghost ++ (s'.queue.filter fun e => h.st.nextUid ≤ e.uid).map
+              fun e => (e.uid, e.data) } := by
+  have hadd : (s'.queue.filter fun e => h.st.nextUid ≤ e.uid) = new := by
+    rw [hq, List.filter_append]
+    have h1 : (h.st.queue.filter fun e => h.st.nextUid ≤ e.uid) = [] := by
+      rw [List.filter_eq_nil_iff]
+      intro e he
+      have := hi.inv.uids_lt e he
+      simp; omega
+    have h2 : (new.filter fun e => h.st.nextUid ≤ e.uid) = new := by
+      rw [List.filter_eq_self]
+      intro e he
+      simpa using (hnew e he).1
+    rw [h1, h2]; rfl
+  constructor
+  · exact hinv'
+  · intro e he
+    rw [hsm] at he
+    have := hi.sm_lt e he
+    simp only; omega
+  · intro e he e' he'
+    simp only [hsm] at he
+    simp only [hq, List.mem_append] at he'
+    rcases he' with he' | he'
+    · exact hi.sm_disj e he e' he'
+    · have := hi.sm_lt e he
+      have := (hnew e' he').1
+      omega
+  · intro p hp
+    simp only [List.mem_append, List.mem_map, List.mem_filter] at hp
+    rcases hp with hp | ⟨e, ⟨he, _⟩, rfl⟩
+    · have := hi.g_lt p hp
+      simp only; omega
+    · exact hinv'.uids_lt e he
+  · simp only [List.map_append, List.map_map]
+    rw [List.nodup_append]
+    refine ⟨hi.g_nodup, ?_, ?_⟩
+    · have : (fun p : Nat × Bytes => p.1) ∘ (fun e : Elem => (e.uid, e.data)) = fun e => e.uid := rfl
+      rw [this]
+      exact hinv'.uids_nodup.sublist (List.filter_sublist.map _)
+    · intro a ha b hb
+      simp only [List.mem_map] at ha
+      obtain ⟨p, hp, rfl⟩ := ha
+      simp only [List.mem_map, List.mem_filter, Function.comp] at hb
+      obtain ⟨e, ⟨_, he⟩, rfl⟩ := hb
+      have := hi.g_lt p hp
+      simp at he
+      omega
+  · obtain ⟨pre, post, hg, hw, hm⟩ := hi.split
+    refine ⟨pre, post ++ new.map fun e => (e.uid, e.data), ?_, ?_, ?_⟩
+    · simp only [hadd, hg, List.append_assoc]
+    · simp only [hq, hw]
+      congr 1
+      cases hq0 : h.st.queue with
+      | nil =>
+        rw [List.nil_append, headWritten_fresh new (fun e he => (hnew e he).2)]; rfl
+      | cons a tl => rfl
+    · simp only [hq]
+      exact hm.append new
+
+
+theorem sendRaw_shape (s : St) (o : Owner) (d : Bytes) :
+    ∃ new, (sendRaw s o d).queue = s.queue ++ new ∧
+      (∀ e ∈ new, s.nextUid ≤ e.uid ∧ e.written = 0) ∧
+      s.nextUid ≤ (sendRaw s o d).nextUid ∧ (sendRaw s o d).smQueue = s.smQueue := by
+  unfold sendRaw
+  split
+  · exact ⟨[], by simp, by simp, Nat.le_refl _, rfl⟩
+  · dsimp only
+    split
+    · refine ⟨[{ uid := s.nextUid, data := d, owner := o },
+         { uid := s.nextUid + 1, data := Gen.reqAck, owner := .smStrophe, link := some s.nextUid }],
+         by simp [push], by simp, by simp [push]; omega, rfl⟩
+    · exact ⟨[{ uid := s.nextUid, data := d, owner := o }], by simp [push], by simp,
+        by simp [push], rfl⟩
+
+theorem writeLoop_match (q : List Elem) (sched : List Accept) (pre post : List (Nat × Bytes))
+    (wire : Bytes) (ht : ∀ e ∈ q.tail, e.written = 0) (hm : Match q post)
+    (hwire : wire = gflat pre ++ headWritten q) :
+    ∃ pre' post', pre ++ post = pre' ++ post' ∧
+      wire ++ (writeLoop q sched).wire = gflat pre' ++ headWritten (writeLoop q sched).rest ∧
+      Match (writeLoop q sched).rest post' := by
+  induction q generalizing sched pre post wire with
+  | nil => exact ⟨pre, post, rfl, by simp [writeLoop, hwire], hm⟩
+  | cons e q ih =>
+    have hfull : ∃ pre' post', pre ++ post = pre' ++ post' ∧
+        wire ++ (e.rest ++ (writeLoop q sched.tail).wire) =
+          gflat pre' ++ headWritten (writeLoop q sched.tail).rest ∧
+        Match (writeLoop q sched.tail).rest post' := by
+      obtain ⟨em, g, rfl, h2, h3⟩ := hm.inv_cons
+      have hq0 : headWritten q = [] := headWritten_fresh q ht
+      obtain ⟨pre', post', h4, h5, h6⟩ := ih sched.tail (pre ++ em ++ [(e.uid, e.data)]) g
+        (wire ++ e.rest) (fun x hx => ht x (List.mem_of_mem_tail hx)) h3 (by
+          rw [hq0, hwire, gflat_append, gflat_append, gflat_empty em h2]
+          simp [gflat, headWritten, Elem.rest])
+      exact ⟨pre', post', by rw [← h4]; simp, by rw [← h5]; simp, h6⟩
+    unfold writeLoop
+    dsimp only
+    split
+    · exact ⟨pre, post, rfl, by simp [hwire, headWritten], hm.head_congr rfl rfl⟩
+    · exact ⟨pre, post, rfl, by simp [hwire, headWritten], hm.head_congr rfl rfl⟩
+    · exact hfull
+    · split
+      · exact hfull
+      · refine ⟨pre, post, rfl, ?_, hm.head_congr rfl rfl⟩
+        simp only [hwire, headWritten, Elem.rest, List.append_assoc, List.take_add]
+
+theorem foldl_retire_smQueue (l : List Elem) (s : St) :
+    ∀ x ∈ (l.foldl retire s).smQueue, x ∈ s.smQueue ∨ ∃ e ∈ l, x.uid = e.uid := by
+  induction l generalizing s with
+  | nil => intro x hx; exact Or.inl hx
+  | cons a l ih =>
+    intro x hx
+    rcases ih (retire s a) x hx with h1 | ⟨e, he, hxe⟩
+    · unfold retire at h1
+      dsimp only at h1
+      split at h1
+      · simp only [List.mem_append, List.mem_singleton] at h1
+        rcases h1 with h1 | rfl
+        · exact Or.inl h1
+        · exact Or.inr ⟨a, by simp, rfl⟩
+      · exact Or.inl h1
+    · exact Or.inr ⟨e, by simp [he], hxe⟩
+
+
+theorem runOnce_nextUid (s : St) (sched : List Accept) : (runOnce s sched).1.nextUid = s.nextUid := by
+  unfold runOnce
+  split
+  · rfl
+  · dsimp only
+    split <;> simp [disconnect, foldl_retire_nextUid]
+
+theorem runOnce_smQueue (s : St) (sched : List Accept) :
+    ∀ x ∈ (runOnce s sched).1.smQueue,
+      x ∈ s.smQueue ∨ ∃ e ∈ (writeLoop s.queue sched).done, x.uid = e.uid := by
+  unfold runOnce
+  split
+  · intro x hx; exact Or.inl hx
+  · dsimp only
+    intro x hx
+    have : x ∈ ((writeLoop s.queue sched).done.foldl retire
+        { s with queue := (writeLoop s.queue sched).rest }).smQueue := by
+      split at hx
+      · exact hx
+      · exact hx
+    exact foldl_retire_smQueue _ { s with queue := (writeLoop s.queue sched).rest } x this
+
+theorem stepH_run (h : Hist) (sched : List Accept) :
+    stepH h (.run sched) =
+      { st := (runOnce h.st sched).1, wire := h.wire ++ (runOnce h.st sched).2,
+        ghost := h.ghost ++ ((runOnce h.st sched).1.queue.filter fun e => h.st.nextUid ≤ e.uid).map
+          fun e => (e.uid, e.data) } := rfl
+
+theorem stepH_send (h : Hist) (o : Owner) (d : Bytes) :
+    stepH h (.send o d) =
+      { st := sendRaw h.st o d, wire := h.wire,
+        ghost := h.ghost ++ ((sendRaw h.st o d).queue.filter fun e => h.st.nextUid ≤ e.uid).map
+          fun e => (e.uid, e.data) } := rfl
+
+theorem stepH_setSm (h : Hist) (b : Bool) :
+    stepH h (.setSm b) =
+      { st := { h.st with smEnabled := b }, wire := h.wire,
+        ghost := h.ghost ++ (h.st.queue.filter fun e => h.st.nextUid ≤ e.uid).map
+          fun e => (e.uid, e.data) } := rfl
+
+theorem stepH_disc (h : Hist) :
+    stepH h .disc =
+      { st := disconnect h.st, wire := h.wire,
+        ghost := h.ghost ++ (h.st.queue.filter fun e => h.st.nextUid ≤ e.uid).map
+          fun e => (e.uid, e.data) } := rfl
+
+theorem hinv_send (h : Hist) (o : Owner) (d : Bytes) (hi : HInv h) : HInv (stepH h (.send o d)) := by
+  rw [stepH_send]
+  obtain ⟨new, h1, h2, h3, h4⟩ := sendRaw_shape h.st o d
+  exact hinv_append h _ new hi (sendRaw_inv _ _ _ hi.inv) h1 h2 h3 h4
+
+theorem hinv_setSm (h : Hist) (b : Bool) (hi : HInv h) : HInv (stepH h (.setSm b)) := by
+  rw [stepH_setSm]
+  exact hinv_append h { h.st with smEnabled := b } [] hi (hi.inv.of_eq rfl rfl rfl rfl)
+    (by simp) (by simp) (Nat.le_refl _) rfl
+
+theorem hinv_disc (h : Hist) (hi : HInv h) : HInv (stepH h .disc) := by
+  rw [stepH_disc]
+  exact hinv_append h (disconnect h.st) [] hi (hi.inv.of_eq rfl rfl rfl rfl)
+    (by simp [disconnect]) (by simp) (Nat.le_refl _) rfl
+
+theorem hinv_run (h : Hist) (sched : List Accept) (hi : HInv h) : HInv (stepH h (.run sched)) := by
+  rw [stepH_run]
+  have hinv' := runOnce_inv h.st sched hi.inv
+  have hnu := runOnce_nextUid h.st sched
+  have hadd : ((runOnce h.st sched).1.queue.filter fun e => h.st.nextUid ≤ e.uid) = [] := by
+    rw [List.filter_eq_nil_iff]
+    intro e he
+    have := hinv'.uids_lt e he
+    rw [hnu] at this
+    simp; omega
+  rw [hadd, List.map_nil, List.append_nil]
+  by_cases hc : h.st.connected = true
+  · obtain ⟨hw, hq⟩ := runOnce_connected h.st sched hc
+    obtain ⟨qpre, suf, hsplit, hdone, hrest⟩ := writeLoop_shape h.st.queue sched
+    have hnd := hi.inv.uids_nodup
+    rw [hsplit, List.map_append, List.nodup_append] at hnd
+    -- every element of the new queue carries the uid of an element of `suf`
+    have hrest_uid : ∀ x ∈ (writeLoop h.st.queue sched).rest, ∃ y ∈ suf, y.uid = x.uid := by
+      rcases hrest with ⟨_, hr⟩ | ⟨e, tl, w, rfl, hr, _⟩
+      · simp [hr]
+      · rw [hr]
+        intro x hx
+        simp only [List.mem_cons] at hx
+        rcases hx with rfl | hx
+        · exact ⟨e, by simp, rfl⟩
+        · exact ⟨x, by simp [hx], rfl⟩
+    constructor
+    · exact hinv'
+    · intro x hx
+      simp only [hnu]
+      rcases runOnce_smQueue h.st sched x hx with h1 | ⟨e, he, hxe⟩
+      · exact hi.sm_lt x h1
+      · rw [hdone] at he
+        simp only [List.mem_map] at he
+        obtain ⟨e0, he0, rfl⟩ := he
+        rw [hxe]
+        exact hi.inv.uids_lt e0 (by rw [hsplit]; simp [he0])
+    · intro x hx e' he'
+      simp only [hq] at he'
+      obtain ⟨y, hy, hyu⟩ := hrest_uid e' he'
+      rcases runOnce_smQueue h.st sched x hx with h1 | ⟨e, he, hxe⟩
+      · rw [← hyu]
+        exact hi.sm_disj x h1 y (by rw [hsplit]; simp [hy])
+      · rw [hdone] at he
+        simp only [List.mem_map] at he
+        obtain ⟨e0, he0, rfl⟩ := he
+        rw [hxe, ← hyu]
+        intro heq
+        exact hnd.2.2 e0.uid (List.mem_map.2 ⟨e0, he0, rfl⟩) y.uid (List.mem_map.2 ⟨y, hy, rfl⟩)
+          heq.symm
+    · intro p hp
+      simp only [hnu]
+      exact hi.g_lt p hp
+    · exact hi.g_nodup
+    · obtain ⟨pre, post, hg, hwire, hm⟩ := hi.split
+      obtain ⟨pre', post', h1, h2, h3⟩ := writeLoop_match h.st.queue sched pre post h.wire
+        (fun e he => (hi.inv.tail_fresh e he).1) hm hwire
+      exact ⟨pre', post', by simp only [hg, h1], by simp only [hw, hq, h2], by simp only [hq]; exact h3⟩
+  · have : runOnce h.st sched = (h.st, []) := by
+      unfold runOnce; simp [hc]
+    rw [this]
+    simp only [List.append_nil]
+    exact hi
+
+
+/-- what a drop does to one ghost entry -/
+def trunc (removed : List Elem) (p : Nat × Bytes) : Nat × Bytes :=
+  match removed.find? (fun e => e.uid = p.1) with
+  | some e => (p.1, p.2.take e.written)
+  | none => p
+
+theorem stepH_drop (h : Hist) (w : Which) :
+    stepH h (.drop w) =
+      { st := (dropElement h.st w).1, wire := h.wire,
+        ghost := h.ghost.map (trunc (h.st.queue.filter fun e =>
+          !((dropElement h.st w).1.queue.any fun e' => e'.uid = e.uid) &&
+          !((dropElement h.st w).1.smQueue.any fun e' => e'.uid = e.uid))) } := rfl
+
+theorem trunc_cases (removed : List Elem) (p : Nat × Bytes) :
+    (∃ r ∈ removed, r.uid = p.1 ∧ trunc removed p = (p.1, p.2.take r.written)) ∨
+    ((∀ r ∈ removed, r.uid ≠ p.1) ∧ trunc removed p = p) := by
+  unfold trunc
+  split
+  · rename_i e he
+    left
+    exact ⟨e, List.mem_of_find?_eq_some he, by simpa using List.find?_some he, rfl⟩
+  · rename_i hn
+    right
+    rw [List.find?_eq_none] at hn
+    exact ⟨fun r hr => by simpa using hn r hr, rfl⟩
+
+theorem trunc_fst (removed : List Elem) (p : Nat × Bytes) : (trunc removed p).1 = p.1 := by
+  rcases trunc_cases removed p with ⟨r, _, _, h⟩ | ⟨_, h⟩ <;> rw [h]
+
+theorem trunc_empty (removed : List Elem) (p : Nat × Bytes) (hp : p.2 = []) :
+    (trunc removed p).2 = [] := by
+  rcases trunc_cases removed p with ⟨r, _, _, h⟩ | ⟨_, h⟩ <;> rw [h] <;> simp [hp]
+
+theorem Match.drop {q : List Elem} {post : List (Nat × Bytes)} (removed : List Elem)
+    (hm : Match q post)
+    (hrem : ∀ r ∈ removed, r.written = 0 ∨ ∀ e ∈ q, e.uid ≠ r.uid) :
+    Match (q.filter fun e => !removed.any (·.uid = e.uid)) (post.map (trunc removed)) := by
+  induction post generalizing q with
+  | nil => simp only [Match] at hm; subst hm; rfl
+  | cons p post ih =>
+    rcases hm with ⟨hp, hm⟩ | ⟨e, q', rfl, hu, hd, hm⟩
+    · exact Or.inl ⟨trunc_empty removed p hp, ih hm hrem⟩
+    · have ih' := ih hm (fun r hr => (hrem r hr).imp id fun h x hx => h x (by simp [hx]))
+      rcases trunc_cases removed p with ⟨r, hr, hru, htr⟩ | ⟨hnone, htr⟩
+      · have hany : (removed.any fun x => x.uid = e.uid) = true := by
+          rw [List.any_eq_true]; exact ⟨r, hr, by simp [hru, hu]⟩
+        rw [List.filter_cons, hany]
+        simp only [Bool.not_true, Bool.false_eq_true, if_false, List.map_cons]
+        refine Or.inl ⟨?_, ih'⟩
+        rw [htr]
+        rcases hrem r hr with h0 | hne
+        · simp [h0]
+        · exact absurd (hu.trans hru.symm) (hne e (by simp))
+      · have hany : (removed.any fun x => x.uid = e.uid) = false := by
+          rw [List.any_eq_false]
+          intro x hx
+          have := hnone x hx
+          simp [hu]; exact this
+        rw [List.filter_cons, hany]
+        simp only [Bool.not_false, if_true, List.map_cons]
+        rw [htr]
+        exact Or.inr ⟨e, _, rfl, hu, hd, ih'⟩
+
+theorem filter_any_sublist {q' q : List Elem} (hs : q'.Sublist q) (hnd : (q.map (·.uid)).Nodup) :
+    q.filter (fun e => q'.any (·.uid = e.uid)) = q' := by
+  induction hs with
+  | slnil => rfl
+  | @cons l₁ l₂ a hs ih =>
+    simp only [List.map_cons, List.nodup_cons] at hnd
+    have : (l₁.any fun x => x.uid = a.uid) = false := by
+      rw [List.any_eq_false]
+      intro x hx heq
+      simp at heq
+      exact hnd.1 (List.mem_map.2 ⟨x, hs.subset hx, heq⟩)
+    rw [List.filter_cons, this]
+    simp only [Bool.false_eq_true, if_false]
+    exact ih hnd.2
+  | @cons_cons l₁ l₂ a hs ih =>
+    simp only [List.map_cons, List.nodup_cons] at hnd
+    rw [List.filter_cons]
+    simp only [List.any_cons, decide_true, Bool.true_or, if_true]
+    congr 1
+    refine Eq.trans ?_ (ih hnd.2)
+    apply List.filter_congr
+    intro x hx
+    have : (decide (a.uid = x.uid)) = false := by
+      simp
+      intro heq
+      exact hnd.1 (List.mem_map.2 ⟨x, hx, heq.symm⟩)
+    simp [this]
+
+theorem eq_of_uid_eq {q : List Elem} (hnd : (q.map (·.uid)).Nodup) {a b : Elem} (ha : a ∈ q)
+    (hb : b ∈ q) (h : a.uid = b.uid) : a = b := by
+  obtain ⟨i, hi⟩ := List.mem_iff_getElem?.1 ha
+  obtain ⟨j, hj⟩ := List.mem_iff_getElem?.1 hb
+  have := idx_unique hnd hi hj h
+  subst this
+  rw [hi] at hj
+  exact Option.some.inj hj
+
+theorem drop_split (q removed : List Elem) (pre post : List (Nat × Bytes)) (wire : Bytes)
+    (hnd : (q.map (·.uid)).Nodup) (htl : ∀ e ∈ q.tail, e.written = 0)
+    (hrem : ∀ r ∈ removed, r ∈ q) (hpre : ∀ p ∈ pre, ∀ e ∈ q, e.uid ≠ p.1)
+    (hm : Match q post) (hwire : wire = gflat pre ++ headWritten q) :
+    ∃ pre' post', (pre ++ post).map (trunc removed) = pre' ++ post' ∧
+      wire = gflat pre' ++ headWritten (q.filter fun e => !removed.any (·.uid = e.uid)) ∧
+      Match (q.filter fun e => !removed.any (·.uid = e.uid)) post' := by
+  have hpre' : pre.map (trunc removed) = pre := by
+    rw [List.map_congr_left (g := id)]
+    · simp
+    · intro p hp
+      rcases trunc_cases removed p with ⟨r, hr, hru, _⟩ | ⟨_, htr⟩
+      · exact absurd hru (hpre p hp r (hrem r hr))
+      · exact htr
+  cases q with
+  | nil =>
+    refine ⟨pre, post.map (trunc removed), by simp [hpre'], hwire, ?_⟩
+    exact hm.drop removed (fun r hr => Or.inr (by simp))
+  | cons e tl =>
+    simp only [List.map_cons, List.nodup_cons] at hnd
+    simp only [List.tail_cons] at htl
+    by_cases hany : (removed.any fun x => x.uid = e.uid) = true
+    · obtain ⟨em, g, rfl, h2, h3⟩ := hm.inv_cons
+      rw [List.any_eq_true] at hany
+      obtain ⟨r, hr, hru⟩ := hany
+      simp at hru
+      have hre : r = e := by
+        have hrq := hrem r hr
+        simp only [List.mem_cons] at hrq
+        rcases hrq with rfl | hrq
+        · rfl
+        · exact absurd (List.mem_map.2 ⟨r, hrq, hru⟩) hnd.1
+      subst hre
+      have htr : trunc removed (r.uid, r.data) = (r.uid, r.data.take r.written) := by
+        rcases trunc_cases removed (r.uid, r.data) with ⟨r', hr', hru', htr⟩ | ⟨hnone, _⟩
+        · have hrq := hrem r' hr'
+          simp only [List.mem_cons] at hrq
+          rcases hrq with rfl | hrq
+          · exact htr
+          · exact absurd (List.mem_map.2 ⟨r', hrq, hru'⟩) hnd.1
+        · exact absurd rfl (hnone r hr)
+      have hf : ((r :: tl).filter fun e => !removed.any (·.uid = e.uid)) =
+          tl.filter fun e => !removed.any (·.uid = e.uid) := by
+        rw [List.filter_cons]
+        have : (removed.any fun x => x.uid = r.uid) = true := by
+          rw [List.any_eq_true]; exact ⟨r, hr, by simp⟩
+        simp [this]
+      rw [hf]
+      refine ⟨pre ++ em.map (trunc removed) ++ [(r.uid, r.data.take r.written)],
+        g.map (trunc removed), ?_, ?_, ?_⟩
+      · simp [hpre', htr]
+      · rw [headWritten_fresh _ (fun x hx => htl x (List.mem_filter.1 hx).1), hwire,
+          gflat_append, gflat_append,
+          gflat_empty (em.map (trunc removed)) (by
+            intro p hp
+            simp only [List.mem_map] at hp
+            obtain ⟨p0, hp0, rfl⟩ := hp
+            exact trunc_empty _ _ (h2 p0 hp0))]
+        simp [gflat, headWritten]
+      · apply h3.drop removed
+        intro r' hr'
+        have hrq := hrem r' hr'
+        simp only [List.mem_cons] at hrq
+        rcases hrq with rfl | hrq
+        · right
+          intro x hx heq
+          exact hnd.1 (List.mem_map.2 ⟨x, hx, heq⟩)
+        · exact Or.inl (htl r' hrq)
+    · have hany' : (removed.any fun x => x.uid = e.uid) = false := by simpa using hany
+      have hf : ((e :: tl).filter fun e => !removed.any (·.uid = e.uid)) =
+          e :: tl.filter fun e => !removed.any (·.uid = e.uid) := by
+        rw [List.filter_cons]; simp [hany']
+      refine ⟨pre, post.map (trunc removed), by simp [hpre'], ?_, ?_⟩
+      · rw [hf]; exact hwire
+      · apply hm.drop removed
+        intro r hr
+        have hrq := hrem r hr
+        simp only [List.mem_cons] at hrq
+        rcases hrq with rfl | hrq
+        · rw [List.any_eq_false] at hany'
+          exact absurd (by simp) (hany' r hr)
+        · exact Or.inl (htl r hrq)
+
+
+theorem hinv_drop_abs (h : Hist) (s' : St) (hi : HInv h) (hinv' : Inv s')
+    (hsub : s'.queue.Sublist h.st.queue) (hsm : s'.smQueue = h.st.smQueue)
+    (hn : s'.nextUid = h.st.nextUid) :
+    HInv { st := s', wire := h.wire,
+           ghost := h.ghost.map (trunc (h.st.queue.filter fun e =>
+             !(s'.queue.any fun e' => e'.uid = e.uid) &&
+             !(s'.smQueue.any fun e' => e'.uid = e.uid))) } := by
+  generalize hrdef : (h.st.queue.filter fun e =>
+             !(s'.queue.any fun e' => e'.uid = e.uid) &&
+             !(s'.smQueue.any fun e' => e'.uid = e.uid)) = removed
+  have hnd := hi.inv.uids_nodup
+  have hrem : ∀ r ∈ removed, r ∈ h.st.queue := by
+    intro r hr; rw [← hrdef] at hr; exact (List.mem_filter.1 hr).1
+  have hfilter : (h.st.queue.filter fun e => !removed.any (·.uid = e.uid)) = s'.queue := by
+    refine Eq.trans ?_ (filter_any_sublist hsub hnd)
+    apply List.filter_congr
+    intro e he
+    cases hany : (s'.queue.any fun x => x.uid = e.uid)
+    · have : (removed.any fun x => x.uid = e.uid) = true := by
+        rw [List.any_eq_true]
+        refine ⟨e, ?_, by simp⟩
+        rw [← hrdef, List.mem_filter]
+        refine ⟨he, ?_⟩
+        rw [hany, hsm]
+        have : (h.st.smQueue.any fun e' => e'.uid = e.uid) = false := by
+          rw [List.any_eq_false]
+          intro x hx
+          have := hi.sm_disj x hx e he
+          simp; exact fun h => this h.symm
+        simp [this]
+      simp [this]
+    · have : (removed.any fun x => x.uid = e.uid) = false := by
+        rw [List.any_eq_false]
+        intro r hr hru
+        simp at hru
+        have hre := eq_of_uid_eq hnd (hrem r hr) he hru
+        subst hre
+        rw [← hrdef, List.mem_filter] at hr
+        simp [hany] at hr
+      simp [this]
+  constructor
+  · exact hinv'
+  · intro e he; simp only [hsm, hn] at he ⊢; exact hi.sm_lt e he
+  · intro e he e' he'
+    simp only [hsm] at he
+    exact hi.sm_disj e he e' (hsub.subset he')
+  · intro p hp
+    simp only [List.mem_map] at hp
+    obtain ⟨p0, hp0, rfl⟩ := hp
+    simp only [trunc_fst, hn]
+    exact hi.g_lt p0 hp0
+  · simp only [List.map_map]
+    have : ((fun p : Nat × Bytes => p.1) ∘ trunc removed) = fun p => p.1 := by
+      funext p; exact trunc_fst removed p
+    rw [this]
+    exact hi.g_nodup
+  · obtain ⟨pre, post, hg, hwire, hm⟩ := hi.split
+    have hgn := hi.g_nodup
+    rw [hg, List.map_append, List.nodup_append] at hgn
+    have hpre : ∀ p ∈ pre, ∀ e ∈ h.st.queue, e.uid ≠ p.1 := by
+      intro p hp e he heq
+      exact hgn.2.2 p.1 (List.mem_map.2 ⟨p, hp, rfl⟩) e.uid (hm.uids e he) heq.symm
+    obtain ⟨pre', post', h1, h2, h3⟩ := drop_split h.st.queue removed pre post h.wire hnd
+      (fun e he => (hi.inv.tail_fresh e he).1) hrem hpre hm hwire
+    rw [hfilter] at h2 h3
+    exact ⟨pre', post', by simp only [hg, h1], h2, h3⟩
+
+theorem unlinkAt_smQueue (s : St) (i) : (unlinkAt s i).smQueue = s.smQueue := by
+  unfold unlinkAt; split <;> rfl
+theorem unlinkAt_nextUid (s : St) (i) : (unlinkAt s i).nextUid = s.nextUid := by
+  unfold unlinkAt; split <;> rfl
+theorem dropS1_smQueue (s : St) (t e) : (dropS1 s t e).smQueue = s.smQueue := by
+  unfold dropS1; split
+  · split
+    · simp [unlinkAt_smQueue]
+    · rfl
+  · rfl
+theorem dropS1_nextUid (s : St) (t e) : (dropS1 s t e).nextUid = s.nextUid := by
+  unfold dropS1; split
+  · split
+    · simp [unlinkAt_nextUid]
+    · rfl
+  · rfl
+
+theorem dropElement_fields (s : St) (w : Which) :
+    (dropElement s w).1.queue.Sublist s.queue ∧ (dropElement s w).1.smQueue = s.smQueue ∧
+    (dropElement s w).1.nextUid = s.nextUid := by
+  rcases dropElement_eq s w with h1 | ⟨head, tl, t0, t, e, _, _, _, _, _, h1⟩
+  · rw [h1]; exact ⟨List.Sublist.refl _, rfl, rfl⟩
+  · rw [h1]
+    refine ⟨?_, by simp [unlinkAt_smQueue, dropS1_smQueue], by simp [unlinkAt_nextUid, dropS1_nextUid]⟩
+    rcases drop_queue s t e with hq | ⟨r, _, _, hq⟩
+    · rw [hq]; exact List.eraseIdx_sublist _ _
+    · rw [hq]; exact (List.eraseIdx_sublist _ _).trans (List.eraseIdx_sublist _ _)
+
+theorem hinv_drop (h : Hist) (w : Which) (hi : HInv h) : HInv (stepH h (.drop w)) := by
+  rw [stepH_drop]
+  obtain ⟨h1, h2, h3⟩ := dropElement_fields h.st w
+  exact hinv_drop_abs h _ hi (dropElement_inv _ _ hi.inv) h1 h2 h3
+
+theorem hinv_step (h : Hist) (op : Op) (hi : HInv h) : HInv (stepH h op) := by
+  cases op with
+  | send o d => exact hinv_send h o d hi
+  | run sched => exact hinv_run h sched hi
+  | drop w => exact hinv_drop h w hi
+  | setSm b => exact hinv_setSm h b hi
+  | disc => exact hinv_disc h hi
+
+theorem hinv_reachable (ops : List Op) : HInv (runH ops) :=
+  foldl_stepH_ind HInv hinv_step ops {} hinv_init
 
 /-- the global statement: at any point of any history, the bytes on the wire followed by the bytes
     still queued are exactly the texts handed in (minus what drops took back), in order -/
 theorem wire_is_fifo (ops : List Op) :
     (runH ops).wire ++ pending (runH ops).st.queue =
-      ((runH ops).ghost.map (·.2)).flatten := by
-  sorry
+      ((runH ops).ghost.map (·.2)).flatten :=
+  (hinv_reachable ops).fifo
 
 /-- on a live connection a drop takes the whole text back: nothing of a dropped element is, or
     will ever be, on the wire -/
 theorem dropped_never_on_wire (h : Hist) (w : Which) (hi : Inv h.st) (hc : h.st.connected)
     (hg : h.wire ++ pending h.st.queue = (h.ghost.map (·.2)).flatten) :
     ∀ u t, (u, t) ∈ (stepH h (.drop w)).ghost → (u, t) ∈ h.ghost ∨ t = [] := by
-  sorry
-
-theorem at_most_one_disconnect_per_op (s : St) (op : Op) :
-    (step s op).1.disconnects ≤ s.disconnects + 1 := by
-  sorry
+  have _ := hg
+  intro u t hut
+  rw [stepH_drop] at hut
+  simp only [List.mem_map] at hut
+  obtain ⟨p, hp, hpe⟩ := hut
+  rcases trunc_cases _ p with ⟨r, hr, hru, htr⟩ | ⟨_, htr⟩
+  · right
+    rw [htr] at hpe
+    rw [List.mem_filter] at hr
+    obtain ⟨hrq, hrc⟩ := hr
+    simp only [Bool.and_eq_true, Bool.not_eq_true', List.any_eq_false, decide_eq_true_eq] at hrc
+    have hnot : r ∉ (dropElement h.st w).1.queue := fun hm => hrc.1 r hm rfl
+    -- the removed element was not started
+    have hw0 : r.written = 0 := by
+      cases hde : dropElement h.st w with
+      | mk s' res =>
+        rw [hde] at hnot
+        cases res with
+        | none =>
+          have := (drop_none h.st w s' hi hde).1
+          subst this
+          exact absurd hrq hnot
+        | some txt =>
+          obtain ⟨i, e, he, _, _, hfresh, _, hq'⟩ := drop_exact h.st w txt s' hi hde
+          obtain ⟨k, hk⟩ := List.mem_iff_getElem?.1 hrq
+          have hkl : k < h.st.queue.length := (List.getElem?_eq_some_iff.1 hk).1
+          have hk' : h.st.queue[k] = r := by
+            rw [List.getElem?_eq_getElem hkl] at hk; exact Option.some.inj hk
+          by_cases hki : k = i
+          · subst hki
+            rw [he] at hk
+            have := Option.some.inj hk
+            subst this
+            exact (hfresh hc).1
+          · by_cases hk0 : k = 0
+            · -- then r stays in the queue
+              exfalso
+              apply hnot
+              simp only at hq' ⊢
+              rcases hq' with hq' | ⟨_, _, _, _, hq'⟩
+              · rw [hq', List.mem_eraseIdx_iff_getElem]
+                exact ⟨k, hkl, hki, hk'⟩
+              · rw [hq', List.mem_eraseIdx_iff_getElem]
+                refine ⟨k, ?_, hki, ?_⟩
+                · rw [List.length_eraseIdx]; split <;> omega
+                · rw [List.getElem_eraseIdx]
+                  split
+                  · exact hk'
+                  · omega
+            · obtain ⟨k', rfl⟩ : ∃ k', k = k' + 1 := ⟨k - 1, by omega⟩
+              exact (hi.tail_fresh r (mem_tail_of_getElem? hk)).1
+    simp only [Prod.mk.injEq] at hpe
+    rw [← hpe.2, hw0]
+    simp
+  · left
+    rw [htr] at hpe
+    rw [← hpe]; exact hp
 
 end Strophe.Lemmas.SendQueue
